@@ -268,13 +268,13 @@ def _int_bounds_atom(pc: List[Term], v: Term) -> Tuple[Optional[int], Optional[i
     return lo, hi
 
 
-DEADLINE: Optional[float] = None     # set by check.run_property: monotonic time after which the analysis gives up (exit 2)
+DEADLINE: Optional[float] = None     # set by check.run_property: process CPU time after which the analysis gives up (exit 2)
 
 
 def check_deadline(what: str = "") -> None:
     if DEADLINE is not None:
         import time as _time
-        if _time.monotonic() > DEADLINE:
+        if _time.process_time() > DEADLINE:
             from .model import AnalysisError
             raise AnalysisError(f"analysis budget exceeded (SA_MAX_TOTAL_SECONDS for one property{': ' + what if what else ''}): the guards grew too large to handle")
 
